@@ -364,3 +364,14 @@ func I32s(name string) int32 { return int32(U32(name)) }
 // AllowDeadlock: a path on which every goroutine ends up blocked is not a
 // violation (INTRINSIC).
 func AllowDeadlock() {}
+
+// Quiesce waits until the rest of the program has come to rest: under the
+// engine a sleep of d on the virtual clock (which only advances when every
+// goroutine is blocked), natively a short real sleep.
+func Quiesce(d time.Duration) {
+	if Symbolic() {
+		time.Sleep(d)
+		return
+	}
+	time.Sleep(300 * time.Millisecond)
+}
